@@ -159,7 +159,12 @@ def eval_format(case):
         base, path, args, fragment, ext, " via URLFormatter(%r)" % (case.get("formatter"),) if case.get("formatter") else "", res)
     head, query, items, frag = _parse_built(res)
     exp_items = [(k.encode("utf-8"), None if v is None else v.encode("utf-8")) for k, v in _retained(eff_args or [])]
-    if items != exp_items:
+    same = items == exp_items
+    if not same and isinstance(eff_args, dict):
+        # a dict carries no order: the statement asks for exactly the retained arguments, in whatever order the builder serialises them
+        key = lambda kv: (kv[0], kv[1] is not None, kv[1] or b"")
+        same = sorted(items, key=key) == sorted(exp_items, key=key)
+    if not same:
         if not exp_items and query == "":
             out.append(("C20/format/no-question-mark", desc + ": '?' although no argument is retained"))
         else:
